@@ -385,8 +385,10 @@ Definition inout_prefix (mn : string) (ops : list pop) (md : mode) : Z :=
   | Some t => match md with M16 => if is_r32t t then 1 else 0 | M32 => if is_r16t t then 1 else 0 end
   end.
 
+Definition has_creg (ops : list pop) : bool := existsb (fun p => match p with PReg TCreg _ => true | _ => false end) ops.
+
 Definition prefix_size (mn : string) (ops : list pop) (md : mode) : Z :=
-  (if String.eqb mn "IN" || String.eqb mn "OUT" then inout_prefix mn ops md else if require66 ops md then 1 else 0)
+  (if String.eqb mn "IN" || String.eqb mn "OUT" then inout_prefix mn ops md else if require66 ops md && negb (has_creg ops) then 1 else 0)
   + (if require67 ops md then 1 else 0).
 
 Definition find_min_size (mn : string) (ops : list pop) (md : mode) (force : bool) : option Z :=
@@ -409,6 +411,13 @@ Definition arith_like (h : string) : bool :=
 Inductive est_res := EstSize (n : Z) | EstDiag | EstUnmodelled.
 
 Definition is_mem_t (t : otype) := match t with TM8 | TM16 | TM32 => true | _ => false end.
+
+Definition push_imm_size (v : Z) (md : mode) : Z :=
+  if (-128 <=? v) && (v <=? 127) then 2
+  else match md with
+       | M32 => 5
+       | M16 => 3
+       end.
 
 Definition est_instr (md : mode) (mn : string) (es : list exp) : est_res :=
   let h := handler_name mn in
@@ -444,7 +453,19 @@ Definition est_instr (md : mode) (mn : string) (es : list exp) : est_res :=
         match find_min_size "OUT" ops md false with Some n => EstSize n | None => EstDiag end
       else if String.eqb h "processPUSH" || String.eqb h "processPOP" then
         if negb (Nat.eqb (Datatypes.length es) 1) then EstDiag else
-        match find_min_size mn ops md false with Some n => EstSize n | None => EstSize 1 end
+        let base := match find_min_size mn ops md false with Some n => n | None => 1 end in
+        (* fixes d3455f3 / 32e8229: the sizes the handlers really emit *)
+        match es, ops with
+        | [e], [p] =>
+            match get_const e, String.eqb mn "PUSH" with
+            | Some v, true => EstSize (push_imm_size v md)
+            | _, _ => match p with
+                      | PReg _ n => if String.eqb n "FS" || String.eqb n "GS" then EstSize 2 else EstSize base
+                      | _ => EstSize base
+                      end
+            end
+        | _, _ => EstSize base
+        end
       else if String.eqb h "processLGDT" then
         if negb (Nat.eqb (Datatypes.length es) 1) then EstDiag else
         match operand_types ops md false with
@@ -608,7 +629,6 @@ Definition disp_bytes_moffs (ops : list pop) (md : mode) : list Z :=
   | None => []
   end.
 
-Definition has_creg (ops : list pop) : bool := existsb (fun p => match p with PReg TCreg _ => true | _ => false end) ops.
 
 (** ---------------------------------------------------------------- codegen handlers *)
 
@@ -714,9 +734,12 @@ Definition emit_push (md : mode) (st : symtab) (ops : list pop) : emit_res :=
           | Some (mrm, sib, disp) => Bytes (pre ++ [255; mrm] ++ (match sib with Some s => [s] | None => [] end) ++ disp)
           | None => diag_nothing
           end
-      | PImm v =>
-          if (-128 <=? v) && (v <=? 127) then Bytes (pre ++ [106; v mod 256])
-          else (match md with M16 => Bytes (pre ++ 104 :: le 2 v) | M32 => Bytes (pre ++ 104 :: le 4 v) end)
+      | PImm v =>       (* code = code[:0]: the prefix derived from the size class of the value is dropped (fix 32e8229) *)
+          if (-128 <=? v) && (v <=? 127) then Bytes [106; v mod 256]
+          else (match md with
+                | M16 => Bytes (104 :: le 2 v)
+                | M32 => Bytes (104 :: le 4 v)
+                end)
       | PLabel l => diag_nothing     (* type rel16/rel32: "unsupported operand type" *)
       end
   | _ => diag_nothing
